@@ -147,6 +147,17 @@ def d1_joint_permutation(ctx):
         f2 = repo.fn(q)
         du2 = DefUse(f2.node)
         comps = [n for n in walk_function(f2.node) if isinstance(n, ast.DictComp)]
+        if not comps and q.endswith("_split_geometry_into_shanks"):
+            # delegation to the other restriction: split_trace_header(th, shank=int(meta["NP2.4_shank"])) - that one is checked below
+            dl = [c for c in find(f2.node, ast.Call) if repo.resolve_call(f2, c) == "neuropixel.split_trace_header"]
+            if dl:
+                from sa.calls import bind
+                sth = repo.fn("neuropixel.split_trace_header")
+                b = bind(dl[0], sth)
+                okd = loc_name(b.bound.get(sth.params[0])) == f2.params[0] and b.bound.get("shank") is not None and "NP2.4_shank" in src(b.bound.get("shank"))
+                ctx.check(okd, f2, dl[0], dl[0], "restriction delegated to split_trace_header for the shank named by the metadata marker",
+                          "delegation to split_trace_header does not pass the header and the marked shank", key="restrict-delegate")
+                continue
         if not comps:
             raise AnchorMissing(f"{q}: restriction comprehension not found")
         for dc in comps:
@@ -448,7 +459,29 @@ def d5_adc(ctx):
         ctx.check(okm and okv, fa, n, n, "each ADC's channels get delays k / n_cycles, k = 0..channels-1 (distinct, evenly spaced)",
                   f"`{src(n)}`: delays of an ADC's channels are not arange(adc_channels)/n_cycles over the mask adc == a", key="delays")
     if not st:
-        raise AnchorMissing("adc_shifts: per-ADC delay store not found")
+        # closed form: delay of channel c = ((c // 2) mod channels_per_adc) / n_cycles  (its rank among the same-parity channels of its block)
+        from sa.algebra import Evaluator as _Ev, Poly as _P
+
+        class EC(_Ev):
+            def ev(self, e):
+                if isinstance(e, ast.Call) and call_name(e) == "arange" and len(e.args) == 1 and loc_name(e.args[0]) == "NC":
+                    return _P.sym("C")
+                if isinstance(e, ast.Call) and call_name(e) in ("mod", "remainder") and len(e.args) == 2:
+                    return self.ev(ast.BinOp(left=e.args[0], op=ast.Mod(), right=e.args[1]))
+                if isinstance(e, ast.Call) and call_name(e) == "floor_divide" and len(e.args) == 2:
+                    return self.ev(ast.BinOp(left=e.args[0], op=ast.FloorDiv(), right=e.args[1]))
+                return super().ev(e)
+        sdefs = [d for d in du.defs if d.var == "sample_shift" and d.kind == "assign" and d.value is not None]
+        if not sdefs:
+            raise AnchorMissing("adc_shifts: sample_shift is neither filled per ADC nor given in closed form")
+        ref = EC().ev(ast.parse("np.mod(np.arange(NC) // 2, adc_channels) / n_cycles", mode="eval").body)
+        for d in sdefs:
+            try:
+                got_p = EC().ev(d.value)
+            except Undecided as ex:
+                raise AnalysisError(f"adc_shifts: closed-form delay not evaluable: {ex}")
+            ctx.check(got_p == ref, fa, d.stmt, d.stmt, "delay of channel c = ((c // 2) mod channels per ADC) / cycles (distinct, evenly spaced within an ADC)",
+                      f"closed-form delay `{src(d.value)}` normalises to {got_p}, expected {ref}", key="delays")
     for r in returns_of(fa.node):
         ok = isinstance(r.value, ast.Tuple) and len(r.value.elts) == 2 and all(
             isinstance(e, ast.Subscript) and isinstance(e.slice, ast.Slice) and e.slice.lower is None and loc_name(e.slice.upper) == "nc"
@@ -463,6 +496,28 @@ def d5_adc(ctx):
                     for e in (t.elts if isinstance(t, ast.Tuple) else [t])]
             ctx.check(keys == ["sample_shift", "adc"], fg, n, n, "unpacked into (sample_shift, adc) in producer order",
                       f"adc_shifts result unpacked into {keys}: delay and group swapped or dropped", key="adc-unpack")
+            # the table must still list every recorded site in on-disk order: position == original channel number (adc_shifts assigns by position)
+            dug = DefUse(fg.node)
+            cfgg = dug.cfg
+            an = cfgg.node_for(n)
+            hdr = None
+            t0 = n.targets[0]
+            for e in (t0.elts if isinstance(t0, ast.Tuple) else [t0]):
+                if isinstance(e, ast.Subscript):
+                    hdr = loc_name(e.value)
+            restr = []
+            for m_ in walk_function(fg.node):
+                if isinstance(m_, ast.Assign) and any(loc_name(t_) == hdr for t_ in m_.targets):
+                    v = m_.value
+                    if isinstance(v, ast.Call) and repo.resolve_call(fg, v) in ("spikeglx._split_geometry_into_shanks", "neuropixel.split_trace_header"):
+                        restr.append(m_)
+                    elif isinstance(v, ast.DictComp):
+                        restr.append(m_)
+            early = [m_ for m_ in restr if cfgg.reachable(cfgg.node_for(m_), an)]
+            ctx.check(not early, fg, n, n, "ADC group / delay are attached while row i of the table is original channel i (before the shank restriction and the sort)",
+                      f"`{src(n)[:70]}` runs after `{src(early[0])[:70] if early else ''}` has restricted / re-ordered the table: adc_shifts assigns group and delay by POSITION, so a "
+                      "split shank's sites get the ADC group and sampling delay of channels 0..n-1 instead of their own original channels - the split geometry is no longer "
+                      "the restriction of its parent's", key="adc-before-restriction", name_free=True)
             from sa.calls import bind
             b = bind(n.value, fa)
             ctx.check("version" in b.bound and src(b.bound["version"]) == "major_version", fg, n, n,
